@@ -121,6 +121,15 @@ pub fn symbolic_model_randomness() {
     }
 }
 
+/// Clear the log but keep the ghost nonce/tag (second encryption with the same "randomness").
+pub fn symbolic_model_randomness_keep() {
+    unsafe {
+        LOG = [EMPTY_ENTRY; 2];
+        DEC_OK = 0;
+        DEC_CALLS = 0;
+    }
+}
+
 // ------------------------------------------------------------------ oracle AEAD (totality)
 pub const TAPE: usize = 4;
 pub static mut ORACLE_ACCEPT: [bool; TAPE] = [false; TAPE];
